@@ -165,7 +165,9 @@ impl ActTask for Act {
                     return Ok(true);
                 }
 
-                if t.state().is_success() {
+                // error and skip are handled above; every other ended child (completed, or closed by
+                // the client with submit / remove) is done as far as this act is concerned
+                if t.state().is_completed() {
                     count += 1;
                 }
             }
